@@ -75,12 +75,12 @@ def enc_val(v) -> list[str]:
         return [enc_float(v)]
     if isinstance(v, str):
         return ["S" + enc(v)]
-    if isinstance(v, list):
-        out = [f"L{len(v)}"]
+    if isinstance(v, (list, tuple)):
+        out = [("U" if isinstance(v, tuple) else "L") + str(len(v))]
         for x in v:
             out += enc_val(x)
         return out
-    if isinstance(v, (set, frozenset)):
+    if isinstance(v, (set, frozenset)) and all(isinstance(x, str) for x in v) and not isinstance(v, frozenset):
         return [f"Z{len(v)}"] + [enc(x) for x in sorted(v)]
     if isinstance(v, dict):
         out = [f"M{len(v)}"]
@@ -93,7 +93,8 @@ def enc_val(v) -> list[str]:
         for n in names:
             out += [enc(n)] + enc_val(getattr(v, n))
         return out
-    raise TypeError(f"cannot encode {type(v).__name__}")
+    # a value of a type outside the model (only in messages that are checked against the real code alone)
+    return ["X" + enc(type(v).__name__ + ":" + repr(v))]
 
 
 def enc_key(k) -> list[str]:
@@ -166,6 +167,12 @@ def dec_val(toks: list[str], i: int = 0):
             x, i = dec_val(toks, i)
             out.append(x)
         return out, i
+    if c == "U":
+        out, i = [], i + 1
+        for _ in range(int(rest)):
+            x, i = dec_val(toks, i)
+            out.append(x)
+        return tuple(out), i
     if c == "Z":
         n = int(rest)
         return {dec(x) for x in toks[i + 1:i + 1 + n]}, i + 1 + n
@@ -319,7 +326,7 @@ def same(a, b) -> bool:
         return (a != a and b != b) or a == b
     if isinstance(a, BaseModel):
         return all(same(getattr(a, n), getattr(b, n)) for n in type(a).model_fields)
-    if isinstance(a, list):
+    if isinstance(a, (list, tuple)):
         return len(a) == len(b) and all(same(x, y) for x, y in zip(a, b))
     if isinstance(a, (set, frozenset)):
         return sorted(map(repr, a)) == sorted(map(repr, b)) and a == b
@@ -345,7 +352,7 @@ def walk(v):
     if isinstance(v, BaseModel):
         for n in type(v).model_fields:
             yield from walk(getattr(v, n))
-    elif isinstance(v, (list, set, frozenset)):
+    elif isinstance(v, (list, tuple, set, frozenset)):
         for x in v:
             yield from walk(x)
     elif isinstance(v, dict):
@@ -368,6 +375,35 @@ def has_numkey(msg) -> bool:
 STRS = ["", "a", "B c", "é€", "\t\n\x00", "1", "1.5", "true", "null", "_type", "-3", "日本", "\U0001F600x", "nan"]
 INTS = [0, 1, -1, 7, 2 ** 31, -2 ** 63, 10 ** 25, 2 ** 53 + 1]
 FLOATS = [0.0, 1.0, -1.0, 0.125, 2.5, -3.75, 1e22, 0.1, 1e300, 5e-324, 2.0 ** 60, 123456.789, -0.0]
+
+
+class Unmodelled(TypeError):
+    """the generator has no rule for this annotation"""
+
+
+class Untestable(Exception):
+    """a required field of a type outside the model for which no value could be made"""
+
+
+OPAQUE: dict = {}      # model class -> {field: why}; filled by run() from the translator
+
+_FALLBACKS = [0, 1, "", "a", 0.0, True, None, [], {}, (), "2020-01-01T00:00:00", "2020-01-01", "00:00:01", b"x", "1.5",
+              [0], [0, 0], ["a"], {"a": "b"}]
+
+
+def fallback_value(ann):
+    """some value pydantic accepts for an annotation the generator knows nothing about"""
+    from pydantic import TypeAdapter
+    try:
+        ta = TypeAdapter(ann)
+    except Exception as e:
+        raise Untestable(f"{ann!r}: {type(e).__name__}")
+    for x in _FALLBACKS:
+        try:
+            return ta.validate_python(x)
+        except Exception:
+            continue
+    raise Untestable(repr(ann))
 
 
 class Gen:
@@ -419,8 +455,13 @@ class Gen:
             return self.value(r.choice(args), (), depth)
         if origin is list:
             return [self.value(args[0], (), depth + 1) for _ in range(r.randrange(0, 3 if depth else 4))]
-        if origin is set:
+        if origin is set and args == (str,):
             return {self.s() for _ in range(r.randrange(0, 5))}
+        if origin is tuple and args:
+            if len(args) == 2 and args[1] is Ellipsis:
+                return tuple(self.value(args[0], (), depth + 1) for _ in range(r.randrange(0, 4)))
+            if Ellipsis not in args:
+                return tuple(self.value(a, (), depth + 1) for a in args)
         if origin is dict:
             out = {}
             for _ in range(r.randrange(0, 4)):
@@ -430,7 +471,7 @@ class Gen:
             return r.choice(list(ann))
         if isinstance(ann, type) and issubclass(ann, BaseModel):
             return self.model(ann, depth + 1)
-        raise TypeError(f"no generator for {ann!r}")
+        raise Unmodelled(f"no generator for {ann!r}")
 
     def key(self, ann):
         r = self.rng
@@ -450,7 +491,16 @@ class Gen:
         for name, f in cls.model_fields.items():
             if not f.is_required() and self.rng.random() < 0.3:
                 continue
-            kw[name] = self.value(f.annotation, tuple(f.metadata), depth)
+            opaque = name in OPAQUE.get(cls, {})
+            if not opaque:
+                try:
+                    kw[name] = self.value(f.annotation, tuple(f.metadata), depth)
+                    continue
+                except Unmodelled:
+                    pass
+            # a type outside the model: the field stays at its default; a required one gets any value pydantic accepts
+            if f.is_required():
+                kw[name] = fallback_value(f.annotation)
         return cls(**kw)
 
 
@@ -461,7 +511,13 @@ def gen_messages(ctx: Check, classes, flavor: str, per_class: int):
         while got < per_class and tries < per_class * 20:
             tries += 1
             g = Gen(ctx.rng, flavor)
-            m = g.model(cls)
+            try:
+                m = g.model(cls)
+            except Untestable as e:
+                note = f"{cls.__qualname__}: no value could be generated for a required field of unmodelled type ({e}); class not exercised"
+                if note not in ctx.notes:
+                    ctx.notes.append(note)
+                break
             if flavor == "nonfinite" and not has_nonfinite(m):
                 if g.float_slots == 0 and tries > 30:
                     break
@@ -622,15 +678,25 @@ def impl_deserialize(j):
 
 
 def msg_case(m, flavor) -> dict:
-    return {"cls": f"{type(m).__module__}:{type(m).__qualname__}", "flavor": flavor, "wire": " ".join(enc_val(m))}
+    c = {"cls": f"{type(m).__module__}:{type(m).__qualname__}", "flavor": flavor, "wire": " ".join(enc_val(m))}
+    if type(m) in OPAQUE:
+        try:
+            c["json"] = json.loads(m.model_dump_json())      # for replay: the wire form cannot rebuild unmodelled types
+        except Exception:
+            pass
+    return c
 
 
 def run(ctx: Check) -> int:
     from harness.translators import schemas
     schemas.generate()
     ctx.prove(MODULE, REQUIRED)
-    classes = schemas.message_classes()
-    ctx.extra["message_classes"] = len(classes)
+    all_classes = schemas.message_classes()
+    OPAQUE.clear()
+    OPAQUE.update(schemas.opaque_fields())
+    outside = [c for c in all_classes if c in OPAQUE]       # contain a field (possibly nested) of a type outside the model
+    classes = [c for c in all_classes if c not in OPAQUE]
+    ctx.extra["message_classes"] = len(all_classes)
     ctx.rule = ("round-trip streams: for every message class reachable through the three namespaces, values generated "
                 "from the declared field types (edge strings incl. unicode/control/astral, big ints, dyadic and "
                 "non-dyadic finite floats, every union member, every literal/enum member, nested lists/dicts/sets, "
@@ -706,8 +772,44 @@ def run(ctx: Check) -> int:
                 key = f"roundtrip-mismatch:{type(m).__qualname__}"
             ctx.fail(Failure(key, c, f"{type(m).__qualname__} {what}: sent {m!r:.300}"))
 
+    # classes with a field of a type the model does not cover: the theorems are silent about them (no value of an
+    # opaque type is wellTyped); they are exercised against the real code alone, the field at its default
+    outside_report = {}
+    for cls in outside:
+        ms = gen_messages(ctx, [cls], "safe", ctx.n(40, 1000))
+        bad = 0
+        for m in ms:
+            r = impl_roundtrip(m)
+            ctx.evaluations += 1
+            ctx.count(f"outside-model:{cls.__qualname__}")
+            if not (r[0] == "ok" and type(r[1]) is type(m) and same(r[1], m)):
+                bad += 1
+                what = ("rejected on arrival" if r[0] == "err" else f"raised {r[1]}" if r[0] == "exc" else "came back changed")
+                ctx.fail(Failure(f"roundtrip-mismatch:{cls.__qualname__}", msg_case(m, "safe"),
+                                 f"{cls.__qualname__} {what}: sent {m!r:.300}"))
+        why = {f"{k.__qualname__}.{n}": w for k, d in OPAQUE.items() for n, w in d.items()
+               if k is cls or any(k.__qualname__ in x for x in OPAQUE.get(cls, {}).values())}
+        outside_report[cls.__qualname__] = {"fields_outside_the_model": OPAQUE.get(cls, {}), "round_trips": len(ms),
+                                            "failed": bad}
+        ctx.notes.append(f"{cls.__qualname__}: field type outside the Lean model ({'; '.join(f'{n}: {w}' for n, w in OPAQUE[cls].items())[:300]}) - "
+                         f"the theorems do not speak about this class; {len(ms)} round trips of the real code with that "
+                         f"field at its default: {bad} failed")
+    ctx.extra["classes_outside_the_model"] = outside_report
+
     # envelopes
     env = [c for c in corpus if "j" in c] + gen_envelopes(ctx, classes)
+
+    def names_outside_class(j) -> bool:
+        # the model answers `unmodelled` for a class with a field type it does not cover
+        import openpectus.protocol.serialization as S
+        if not isinstance(j, dict) or not isinstance(j.get("_ns"), str) or not isinstance(j.get("_type"), str):
+            return False
+        if j["_ns"] not in S._message_namespace_names:
+            return False
+        mod = S._message_namespaces[S._message_namespace_names.index(j["_ns"])]
+        obj = getattr(mod, j["_type"], None)
+        return isinstance(obj, type) and obj in OPAQUE
+    env = [c for c in env if not names_outside_class(c["j"])]
     for c in env:
         ctx.count("envelope:" + c["kind"])
 
@@ -744,6 +846,8 @@ def _search(ctx: Check) -> None:
     """Proof or correspondence broke: look for a failing round trip with fresh values of every class."""
     from harness.translators import schemas
     classes = schemas.message_classes()
+    OPAQUE.clear()
+    OPAQUE.update(schemas.opaque_fields())
     for m in gen_messages(ctx, classes, "safe", ctx.n(150, 1500)):
         r = impl_roundtrip(m)
         if not (r[0] == "ok" and type(r[1]) is type(m) and same(r[1], m)):
@@ -755,7 +859,11 @@ def _search(ctx: Check) -> None:
 def replay(obj) -> int:
     c = obj.get("case", {})
     if "wire" in c:
-        m, _ = dec_val(c["wire"].split(" "))
+        if "json" in c:
+            mod, name = c["cls"].split(":")
+            m = getattr(importlib.import_module(mod), name)(**c["json"])
+        else:
+            m, _ = dec_val(c["wire"].split(" "))
         r = impl_roundtrip(m)
         print("sent     :", repr(m)[:1500])
         print("received :", (repr(r[1]) if r[0] == "ok" else r)[:1500] if r[0] == "ok" else r)
